@@ -289,7 +289,7 @@ def explore(kind, n, cfg, hidden, states, d, persistent, judge, snap=False, extr
                 t.c["exec_d%d%s" % (len(ex.raise_at), "p" if ex.persist else "")] += 1
                 if len(ex.log) > t.c["max_hooks_per_run"]:
                     t.c["max_hooks_per_run"] = len(ex.log)
-                jf(t, ex, witness, extra)
+                core.guard(t, judge.upper() if isinstance(judge, str) else "E1", forest.case_of(ex, witness), jf, t, ex, witness, extra)
                 t.obs((kind, key, op, ex.raise_at, ex.persist, ex.outcome, ex.post, [r[:3] for r in ex.log]))
                 if t.c["executions"] % 9973 == 1:
                     t.sample(forest.case_of(ex, witness), cap=2)
